@@ -3,9 +3,10 @@
 // usage: goconsts <repo root> <spec file> <out Consts.v> [<out table.json>]
 //
 // Spec lines:  <coq name> <pkg dir rel. to repo> <scope> <go name> <kind>
-//   scope: "-" for package level, otherwise the enclosing function name
-//          (for methods: Recv.Method)
-//   kind:  N | Z | bytes | durns (time.Duration in ns, as Z) | len (len of a string const, as N)
+//
+//	scope: "-" for package level, otherwise the enclosing function name
+//	       (for methods: Recv.Method)
+//	kind:  N | Z | bytes | durns (time.Duration in ns, as Z) | len (len of a string const, as N)
 //
 // Package-level names may be constants or variables with a constant
 // initialiser.  Values are computed by go/types + go/constant from the
